@@ -21,6 +21,7 @@ def run(chk):
         raise core.MachineryError("no accepted result to run the binding self-test on")
     chk.cov["rule"] = ("cases = results of the real LineageRunner on the harvested corpus and on scripts rendered from TLC-simulated histories "
                        "of Script.tla; both Cytoscape exports and the text summary are projected and compared by TLC with the observed graph "
-                       "and role lists. non-trivial = the result has column nodes.")
+                       "and role lists; for every fourth result the exports are those the web application serves for the same text (POST /lineage on the WSGI app). "
+                       "non-trivial = the result has column nodes.")
     chk.assumptions += ["sorted order of names is supplied by the projection as ranks (TLA+ has no string order)",
                         "the graph is read through LineageRunner._sql_holder; the exports and the summary through the public API"]
